@@ -29,7 +29,7 @@ CONSTANTS
     MaxBlocks, MaxLeaves, MaxForkDepth,
     Events,        \* what a mined block may carry (set of Ev records, NoEv included or not)
     MaxEvents,     \* blocks with an event in the tree
-    AllowSwitch,
+    MaxSwitches,   \* head switches to an existing block (every one makes the node produce notifications)
     MaxStops, MaxFaults, MaxSkips, MaxSwaps,
     FaultAt,       \* subset of {"new", "start", "poll", "dlv"}: where an RPC fault may be injected
     DkgEager,
@@ -46,7 +46,7 @@ A0(a, c) == Act(a, c, 0, NoEv, "-", "none")
 Init ==
     /\ w = World0 /\ g = Ghost0 /\ tags = {}
     /\ last = [a |-> Enc(A0("init", 0)), out |-> <<>>]
-    /\ cnt = [stops |-> 0, faults |-> 0, skips |-> 0, swaps |-> 0]
+    /\ cnt = [stops |-> 0, faults |-> 0, skips |-> 0, swaps |-> 0, switches |-> 0]
     /\ halted = FALSE
     /\ hist = <<>>
 
@@ -85,10 +85,11 @@ Mine(p, e) ==
     /\ UNCHANGED <<cnt, halted>>
 
 Switch(b) ==
-    /\ Free /\ AllowSwitch
+    /\ Free /\ cnt.switches < MaxSwitches
     /\ b \in Leaves(w.blk)
     /\ Do(Act("switch", 0, b, NoEv, "-", "none"))
-    /\ UNCHANGED <<cnt, halted>>
+    /\ cnt' = [cnt EXCEPT !.switches = @ + 1]
+    /\ UNCHANGED halted
 
 Fault(kind, f) == f = "none" \/ (f = "rpc" /\ kind \in FaultAt /\ ~halted /\ cnt.faults < MaxFaults)
 CountFault(f) == IF f = "rpc" THEN [cnt EXCEPT !.faults = @ + 1] ELSE cnt
